@@ -290,9 +290,9 @@ class Runner:
                 self.count('messages_checked')
         if outcome != 'ok' and out.exists():
             try:
-                reader = Reader(out)
-                reader.assert_runnable()
-                self.bad(f'failed-assembly-left-a-loadable-file/{cls}', f'{cls}: after {outcome} the output file loads as a program', case)
+                reader = Reader(out)  # "loads": the reader accepts the leftover as a memory image (whether or not it has a first op)
+                self.bad(f'failed-assembly-left-a-loadable-file/{cls}',
+                         f'{cls}: after {outcome} the output path holds a file the reader loads ({len(reader.memory_segments)} segments)', case)
             except flipjump.FlipJumpException:
                 self.count('failed_assembly_left_unloadable_file')
             except Exception as e:  # noqa: B902
